@@ -160,16 +160,20 @@ E2E_NLS = [
 ]
 
 
-def e2e_jobs(tier, seed, lemmas, opts_list=None):
+def e2e_jobs(tier, seed, lemmas, light=False):
     J = []
     stims = {2: ['RF', 'RR', 'F1', '0R', 'FR'], 3: ['RFR', 'R10', 'FF1']}
-    for nl in (E2E_NLS if tier == 'thorough' else E2E_NLS[:4]):
+    for k, nl in enumerate(E2E_NLS if tier == 'thorough' else E2E_NLS[:4]):
         c = netlist.build(nl, 'verilog')
         n_in = len([1 for n in c.s_nodes if any(l is not None for l in n.outs)])
         for cls in ('cpu', 'gpu'):
             for caps in (4, 8):
-                for st in (stims[2] if n_in <= 2 else stims[3])[:(5 if tier == 'thorough' else 2)]:
-                    J.append((nl.to_json(), cls, caps, st, tuple(sorted(lemmas))))
+                sts = (stims[2] if n_in <= 2 else stims[3])[:(5 if tier == 'thorough' else 2)]
+                if light and tier == 'quick':
+                    if caps == 4 or (k + (cls == 'gpu')) % 2: continue
+                    sts = sts[1:2]
+                for st in sts:
+                    J.append((nl.to_json(), cls, caps, st, tuple(sorted(lemmas)), ()))
     return J
 
 
@@ -210,7 +214,8 @@ def sta(c, sw, stim):
 
 
 def e2e_job(job):
-    nlj, cls, caps, st, lemmas = job
+    nlj, cls, caps, st, lemmas, optt = job
+    opts = dict(optt)
     rep = common.Report()
     nl = netlist.NL.from_json(nlj)
     c = netlist.build(nl, 'verilog')
@@ -232,10 +237,10 @@ def e2e_job(job):
         lv8 = logic.bp_to_mv(ls.s[1])[:, 0]
 
     def fn(eng):
-        sw = SymWave(eng, cls, c, caps, stim, {}).run()
+        sw = SymWave(eng, cls, c, caps, stim, opts).run()
         bad = []
         win = sta(c, sw, stim) if 'STA' in lemmas else None
-        for l in c.lines:
+        for l in (c.lines if not opts.get('c_reuse') else []):
             prob, init, fin, term = decode(sw.line_wave(l.index))
             if prob: bad.append(('WF', f'line {l.index}: {prob}')); continue
             if 'BOOL' in lemmas:
@@ -278,7 +283,7 @@ def e2e_job(job):
         for lemma, detail in bad:
             if lemma in found: continue
             mdl = grid_model(eng, list(sw.dv.values()) + list(sw.tv.values()))
-            found[lemma] = ({'mode': 'e2e', 'nl': nlj, 'cls': cls, 'caps': caps, 'stim': st, 'lemma': lemma,
+            found[lemma] = ({'mode': 'e2e', 'nl': nlj, 'cls': cls, 'caps': caps, 'stim': st, 'lemma': lemma, 'opts': opts,
                              'dvals': [[list(k), fr(mdl, v)] for k, v in sw.dv.items()], 'tvals': [[k, fr(mdl, v)] for k, v in sw.tv.items()]}, detail)
         return 0
     try:
@@ -317,14 +322,14 @@ def replay(data):
     stim = {i: data['stim'][k] for k, i in enumerate(ins)}
     dvals = {tuple(k): v for k, v in data['dvals']}; tvals = {int(k): v for k, v in data['tvals']}
     try:
-        w = concrete_wave(data['cls'], c, data['caps'], stim, {}, dvals, tvals)
+        w = concrete_wave(data['cls'], c, data['caps'], stim, data.get('opts', {}), dvals, tvals)
     except Exception as e:
         return True, f'{type(e).__name__}: {e}'
     sn = c.s_nodes
     a0 = {i: VAL[stim.get(i, '0')][0] for i in range(len(sn))}; a1 = {i: VAL[stim.get(i, '0')][1] for i in range(len(sn))}
     r0 = ref2.Ref2(c, a0, 0, 1); r1 = ref2.Ref2(c, a1, 0, 1)
     lemma = data['lemma']
-    for l in c.lines:
+    for l in (c.lines if not data.get('opts', {}).get('c_reuse') else []):
         loc, cap = int(w.c_locs[l.index]), int(w.c_caps[l.index])
         prob, init, fin, term = decode_f([w.c[loc + j, 0] for j in range(cap)])
         if prob: return True, f'line {l.index}: {prob}'
